@@ -189,8 +189,8 @@ fn idioms() -> &'static Vec<Case> {
         let mut seen = std::collections::HashSet::new();
         for ev in Ev::ALL {
             let xs: Vec<&str> = match ev {
-                Ev::I64 => vec!["0", "1", "2", "3", "7", "(0-3)", "20", "63", "2147483648", "3000000000", "3037000499", "3037000500", "9007199254740993", "4611686018427387904", "9223372036854775807"],
-                Ev::Num => vec!["0", "1", "2", "3", "2.0", "0.5", "(0-7)", "20", "0.0", "(-0.0)", "2147483648", "3037000499", "3037000500", "9007199254740993", "9223372036854775807", "9007199254740994.0", "170", "(1/0.0)"],
+                Ev::I64 => vec!["0", "1", "2", "3", "7", "(0-3)", "20", "63", "2147483648", "3000000000", "3037000499", "3037000500", "9007199254740993", "4611686018427387904", "9223372036854775807", "(0-9223372036854775807-1)"],
+                Ev::Num => vec!["0", "1", "2", "3", "2.0", "0.5", "(0-7)", "20", "0.0", "(-0.0)", "2147483648", "3037000499", "3037000500", "9007199254740993", "9223372036854775807", "(0-9223372036854775807-1)", "9007199254740994.0", "170", "(1/0.0)"],
                 Ev::F64 => vec!["0", "(-0)", "1", "2", "3", "0.5", "(0-7)", "20", "0.1", "0.000000001", "9007199254740993", "94906267", "170", "709", "(10^308)", "(1/0)", "(0/0)"],
                 Ev::Dec => vec!["0", "1", "2", "3", "0.5", "(0-7)", "20", "0.1", "3.00", "27", "1000000000000000", "281474976710656", "79228162514264337593543950335", "0.0000000000000000000000000001"],
                 Ev::Cpx => vec!["0", "1", "2", "(0-1)", "0.5", "i", "(1+2i)", "(-0.5-2i)", "3", "(3+4i)", "20"],
